@@ -193,6 +193,8 @@ def list_ops(kind):
         for v in raw[:2]:
             ops.append(["insert", i, v])
     for shape, it in _iterables(contents):
+        if shape not in ("iter", "gen"):
+            ops.append(["assign", shape, it])
         ops.append(["extend", shape, it])
         ops.append(["iadd", shape, it])
         if shape in ("list", "proxy-same", "proxy-otherfield", "proxy-othercfg"):
@@ -263,6 +265,8 @@ def dict_ops(kind):
                   ("proxy-otherfield", {"$": "ref", "proxy": "otherfield", "items": D(*c)}),
                   ("proxy-othercfg", {"$": "ref", "proxy": "othercfg", "items": D(*c)})]
         for shape, it in shapes:
+            if shape in ("dict", "proxy-same", "proxy-otherfield", "proxy-othercfg"):
+                ops.append(["assign", shape, it])
             ops.append(["update", shape, it, {}])
             if shape in ("dict", "pairs", "proxy-same", "proxy-otherfield", "proxy-othercfg"):
                 ops.append(["ior", shape, it])
@@ -297,6 +301,12 @@ def apply_list(target, op, norm, resolve):
         if getattr(it, "item_field", None) is getattr(norm, "same_field", object()):
             return list(it)        # a typed list of the very same item field already holds normal forms
         return [norm(x) for x in it]
+    if name == "assign":          # the whole value is assigned through the owning configuration
+        if norm is None:
+            target.cfg.l = dec(op[2])
+            return ("rebind", target.cfg.l)
+        target[:] = nit(dec(op[2]))
+        return ("rebind", target)
     if name == "append":
         return target.append(nv(dec(op[1])))
     if name == "insert":
@@ -380,6 +390,14 @@ def apply_dict(target, op, norms, resolve):
             it = list(it.items())
         return [(kn(k), vn(v)) for k, v in it]
 
+    if name == "assign":
+        if norms is None:
+            target.cfg.d = dec(op[2])
+            return ("rebind", target.cfg.d)
+        new = pairs(dec(op[2]))
+        target.clear()
+        target.update(new)
+        return ("rebind", target)
     if name == "setitem":
         target[kn(dec(op[1]))] = vn(dec(op[2]))
         return None
@@ -511,7 +529,7 @@ def jobs(tier):
 
 def _argshape(op):
     name = op[0]
-    if name in ("extend", "iadd", "add"):
+    if name in ("extend", "iadd", "add", "assign"):
         return op[1]
     if name == "setslice":
         return "%s<-%s" % (op[1], op[2])
@@ -591,6 +609,22 @@ def _check_transition(ctx, container, kind, hist, op):
             bad("exception-class", "built-in raises %s, typed container raises %s" % (type(mo[1]).__name__, type(po[1]).__name__))
         if _content(container, w.proxy) != _content(container, w.model):
             bad("contents-after-raise", "contents %s != built-in %s" % (V.show(w.proxy), V.show(w.model)))
+        return
+    if op[0] == "assign":
+        new = po[1][1]
+        if type(new).__name__ != type(w.proxy).__name__:
+            bad("assigned-type", "after the assignment the field holds a %s" % type(new).__name__)
+            return
+        if _content(container, new) != _content(container, w.model):
+            bad("contents", "after the assignment the field holds %s, built-in of the normalised items %s" % (V.show(new), V.show(w.model)))
+            return
+        bound = (getattr(new, "list_field", None) or getattr(new, "dict_field", None))
+        if bound is not w.schema._fields["l" if container == "list" else "d"] or new.cfg is not w.cfg:
+            bad("assigned-binding", "the value now held is a typed container of another field or configuration")
+            return
+        w.proxy = new
+        if not _typed_ok(container, w, new):
+            bad("assigned-untyped", "the value now held no longer normalises / rejects like its field")
         return
     # both returned
     if _content(container, w.proxy) != _content(container, w.model):
